@@ -2,6 +2,12 @@
 
 package group
 
+import (
+	"encoding/json"
+	"os"
+	"strings"
+)
+
 // Verification shim for engine `api`: reaches rewriteDescriptionFile (the
 // temp-file/fsync/rename sequence whose system calls are captured with strace)
 // and readDescription (what a restarted server reads back).
@@ -26,4 +32,45 @@ func VerifApiForgetGroups() {
 // for a description (also for a subgroup's, which it refuses to serve).
 func VerifApiDescTag(d *Description) string {
 	return makeETag(d.fileSize, d.modTime)
+}
+
+// VerifApiCacheCheck compares, for a group that is live in memory and whose definition file has not
+// changed since it was cached (same size and modification time), the users, wildcard user and keys
+// of the cached description with those in the file.  Returns "" when there is nothing to compare or
+// they agree, else what differs.  (A read through the API must not alter what logins are checked against.)
+func VerifApiCacheCheck(name string) string {
+	g := Get(name)
+	if g == nil {
+		return ""
+	}
+	g.mu.Lock()
+	d := g.description
+	g.mu.Unlock()
+	if d == nil || d.FileName == "" {
+		return ""
+	}
+	fi, err := os.Stat(d.FileName)
+	if err != nil || fi.Size() != d.fileSize || !fi.ModTime().Equal(d.modTime) {
+		return ""
+	}
+	// read the file the way the code does (legacy formats are upgraded on the way in)
+	fp, err := readDescription(name, true)
+	if err != nil || fp.FileName != d.FileName || fp.fileSize != d.fileSize || !fp.modTime.Equal(d.modTime) {
+		return ""
+	}
+	f := *fp
+	var out []string
+	cmp := func(what string, x, y any) {
+		bx, _ := json.Marshal(x)
+		by, _ := json.Marshal(y)
+		if string(bx) != string(by) {
+			out = append(out, what)
+		}
+	}
+	groups.mu.Lock() // readers of the cached description hold no lock; the API's writers hold this one
+	cmp("users", d.Users, f.Users)
+	cmp("wildcard-user", d.WildcardUser, f.WildcardUser)
+	cmp("keys", d.AuthKeys, f.AuthKeys)
+	groups.mu.Unlock()
+	return strings.Join(out, "+")
 }
